@@ -118,6 +118,12 @@ CHECKS["C11"] = dict(
     text="Every user state machine method emits Enter/Exit events (sequence number under one mutex as first/last statement: an overlap in the trace is a real overlap). Scenarios: the nhsim fault mix, plus contract scenarios with two shards sharing one snapshot worker, slow SaveSnapshot/Sync/PrepareSnapshot, continuous local and exported snapshot requests, shard stop/restart while snapshot jobs are pending, power loss + restart so that lagging replicas are streamed snapshots, periodic Sync every 15 ticks, and NodeHost.Close while requests are in flight. TLC checks per object: exclusive group never overlaps and is never called after Close; plain SM readers never overlap writers; Update indexes strictly increasing, above the recovered snapshot / Open index; every entry that reached Update anywhere reaches every object whose life covers its index exactly once; same entry at the same index everywhere.",
     note=NH_NOTE + " Exploration level: schedules are perturbed by seeded sleeps inside the callbacks, not enumerated.")
 
+CHECKS["C16"] = dict(
+    engine="tlc+nhsim", category="fault_enumeration", design_ref="5 C16",
+    technique="TLA+ specification of the snapshot directory (SnapshotDir.tla: volatile vs durable layout, save / receive / compact step sequences, processOrphans) model-checked with a power loss between any two file-system steps (MCSnapshotDir); its layout predicates evaluated by TLC on directory listings of real hosts after real power losses at seeded file-system operations (SnapshotDirTrace)",
+    text="MCSnapshotDir: all interleavings of a local save, a received snapshot and compaction, each as its file-system steps, with power loss anywhere and the start-up cleanup itself interruptible: the recorded snapshot is always on disk and complete, and after the cleanup exactly the recorded snapshot remains; dropping the file sync or the directory sync is refuted (vacuity checks). Real code: hosts of a 3-host cluster (regular, concurrent, on-disk state machines; Pebble and Tan) lose power at a seeded file-system operation while saving (also two saves back to back), exporting, receiving a streamed snapshot (after being left behind a compacted log), shrinking and compacting; after NewNodeHost the directory and the log store record are listed (pre-cleanup predicate CrashLayout), after StartReplica again (CleanLayout: only the recorded snapshot remains, valid per the real validator, no flag, no temporary or orphaned directory), then the replica must reach the recorded snapshot index; panics during recovery are violations.",
+    note=NH_NOTE + " Snapshots with external files cannot be produced on the in-memory file system (rsm.Files.PrepareFiles uses os.Link); import is covered by C20.")
+
 NOT_APPLICABLE = {
     "C13": "encode/decode fidelity and size arithmetic of hand-written codecs over the numeric input space: no state/transition structure for a TLA+ specification to describe (DESIGN.md section 6)",
 }
@@ -171,7 +177,7 @@ def main():
             {"name": "tlc+rsim", "path": "/verif/lib/raftfamily.py",
              "serves_properties": ["C02", "C03", "C06", "C07", "C17", "C18"],
              "kind_free_text": "TLC exhaustive model checking of MCRaft + TLC trace validation (RaftTrace) of executions of the real internal/raft recorded by the rsim harness"},
-            {"name": "tlc+nhsim", "path": "/verif/lib/nhfamily.py", "serves_properties": ["C01", "C04", "C11"],
+            {"name": "tlc+nhsim", "path": "/verif/lib/nhfamily.py", "serves_properties": ["C01", "C04", "C11", "C16"],
              "kind_free_text": "TLC model checking (MCPipeline, MCClientHistory) + TLC evaluation (ClientHistoryTrace, PipelineTrace, SMContractTrace) of event streams recorded from in-process clusters of real NodeHosts (harness/root/nhsim_*_test.go)"},
             {"name": "tlc+smsim", "path": "/verif/lib/rsmchecks.py", "serves_properties": ["C05", "C08", "C07"],
              "kind_free_text": "TLC model checking of MCRSM + TLC trace validation (RSMTrace) of real rsm.StateMachine instances driven by harness/rsm/smsim_test.go"},
